@@ -643,13 +643,18 @@ class BaseTaskPool:
                 return_exceptions=return_exceptions,
             )
         self._meta_tasks_cancelled.clear()
+        ended = dict(self._tasks_ended)
+        cancelled = dict(self._tasks_cancelled)
         await gather(
-            *self._tasks_ended.values(),
-            *self._tasks_cancelled.values(),
+            *ended.values(),
+            *cancelled.values(),
             return_exceptions=return_exceptions,
         )
-        self._tasks_ended.clear()
-        self._tasks_cancelled.clear()
+        # Forget only the tasks gathered above. A task that was cancelled or
+        # ended while we were waiting may still be inside its callbacks.
+        for task_id in (*ended, *cancelled):
+            self._tasks_ended.pop(task_id, None)
+            self._tasks_cancelled.pop(task_id, None)
 
     async def gather_and_close(
         self,
